@@ -10,7 +10,7 @@
    of the parser spins on any input. *)
 From PV Require Import Base.Prelude Cmd.CLex Cmd.Parser Cmd.ParserProofs Cmd.Utf7Ok
      Cmd.Grammar Cmd.GrammarProofs Cmd.Commands Cmd.CommandsProofs Cmd.SuffixProofs
-     Cmd.JustProofs.
+     Cmd.JustProofs Cmd.Framing Cmd.FramingProofs.
 
 (* Commands.parse, for every line, every list of continuation data, every
    configuration (max_append_len, recursion budget) and every behaviour of the
@@ -51,24 +51,33 @@ Theorem C06_guard_needed_recursion_error :
 Proof. exact args_raise_recursion_error. Qed.
 Print Assumptions C06_guard_needed_recursion_error.
 
-(* The re-parse loop of read_command: it ends with a command object after at
-   most one request per continuation the client supplies, or it is waiting for
-   the continuation it asked for; it never ends on an interrupt it did not
-   ask about and never runs out of iterations.
-   Partial with respect to the planned bound "1 + number of synchronizing
-   literals in the input": that bound needs the additional fact that an
-   abandoned alternative never reaches the same literal again, which is not
-   proved here (the correspondence run checks on every case that the server
-   asks at most once per synchronizing literal of the data sent). *)
-Theorem C06_reparse_terminates_partial : forall o cfg line supplied,
+(* The re-parse loop of read_command runs at most 1 + (number of synchronizing
+   literals in the line and its continuations) times: the number of
+   continuation requests [asked] is at most [nsync], the number of buffers
+   (line, continuations) that end with a synchronizing literal header; the
+   loop ends with a command object, or is waiting for the continuation it
+   asked for; it never ends on an interrupt and never runs out of iterations.
+   Needs fix C06-F10 (a literal reached again after backtracking keeps its
+   continuation): on the tree before it `a SEARCH RETURN (OR (SUBJECT {1}`
+   drew two requests for one literal. *)
+Theorem C06_reparse_terminates : forall o cfg line supplied,
   match read_command (S (length supplied)) o cfg line supplied 0 with
   | RCDone out asked =>
-    asked <= length supplied /\ match out with OInterrupt _ => False | _ => True end
-  | RCWaiting asked _ => asked = S (length supplied)
+    asked <= nsync (line :: supplied) /\ asked <= length supplied /\
+    match out with OInterrupt _ => False | _ => True end
+  | RCWaiting asked _ => asked <= nsync (line :: supplied) /\ asked = S (length supplied)
   | RCFuel => False
   end.
-Proof. exact read_command_terminates. Qed.
-Print Assumptions C06_reparse_terminates_partial.
+Proof. exact read_command_full_bound. Qed.
+Print Assumptions C06_reparse_terminates.
+
+(* when the parser interrupts, every buffer it was given ends with a
+   synchronizing literal: the chain of literals is unbroken *)
+Theorem C06_interrupt_chain : forall o cfg line conts n,
+  parse_command o cfg line conts = OInterrupt n ->
+  Forall (fun B => sync_end B = true) (line :: conts).
+Proof. exact interrupt_all_sync_end. Qed.
+Print Assumptions C06_interrupt_chain.
 
 (* A continuation request is never spurious: when Commands.parse interrupts
    for n literal bytes, the line or one of the continuations received so far
@@ -104,17 +113,28 @@ Theorem C06_answered_refuted_backend_exception :
 Proof. exact respond_unanswered_other. Qed.
 Print Assumptions C06_answered_refuted_backend_exception.
 
-(* ... and a response whose serialisation raises (open finding C06-F9: FETCH
-   BINARY of a part with an unknown Content-Transfer-Encoding or malformed
-   base64) closes the connection with neither tagged completion nor BYE. *)
+(* ... and so is a response whose production raises something else than a
+   ResponseError.  (FETCH BINARY of an undecodable part, finding C06-F9, used
+   to be such a case and closed the connection silently; since f39c4ca it
+   raises UnknownCTE, a ResponseError, and is answered NO [UNKNOWN-CTE] —
+   inside the contract.) *)
 Theorem C06_answered_refuted_write_failure :
   exists o cfg st bad exec line supplied,
     oracle_total o /\
     let rs := fst (respond o cfg st bad exec line supplied) in
-    existsb is_close rs = true /\ existsb is_bye rs = false /\
+    existsb is_serverbug rs = true /\
     ~ (exists r, In r rs /\ tagged_with (line_tag line) r).
 Proof. exact respond_unanswered_write_failure. Qed.
 Print Assumptions C06_answered_refuted_write_failure.
+
+(* Framing (IMAPConnection.readline / read_continuation, ManageSieve
+   _read_data): the buffer handed to the parser is a non-empty prefix of the
+   client's stream — bytes are never invented, dropped or reordered, every
+   read advances — for every stream, every literal length asked for. *)
+Theorem C06_framing_prefix : forall need stream unit rest,
+  read_unit need stream = Some (unit, rest) -> stream = unit ++ rest /\ unit <> [].
+Proof. exact read_unit_prefix. Qed.
+Print Assumptions C06_framing_prefix.
 
 (* ManageSieve: Command.parse yields a command or the "Bad command" answer,
    for every line and every behaviour of the UTF-8 decoder. *)
